@@ -848,7 +848,15 @@ func Noise(r *gen.Rng) {
 		case 14:
 			// the exported map-to-curve entry points on their exceptional inputs (u = 0 and u^2 = -1/Z)
 			u := noiseExceptional[r.Intn(len(noiseExceptional))]
-			secp256k1.IsogenySecp256k13iso(secp256k1.SSWU(FE(u))).Encode()
+			q := secp256k1.IsogenySecp256k13iso(secp256k1.SSWU(FE(u)))
+			_ = q.Encode()
+			q.Add(secp256k1.Base()).Double() // what the map functions return is the caller's to work on
+
+			// and the isogeny on the abscissa at which its denominators vanish; the result is worked on in place as well
+			in := secp256k1.NewElement()
+			xk := oracle.FMul(oracle.FNeg(oracle.K[1][1]), oracle.FInv0(big.NewInt(2)))
+			secp256k1.VSetRaw(in, oracle.ToMont(xk, oracle.P), oracle.ToMont(big.NewInt(3), oracle.P), oracle.ToMont(big.NewInt(1), oracle.P))
+			secp256k1.IsogenySecp256k13iso(in).Add(secp256k1.Base()).Negate()
 		case 15:
 			// the caller owns every slice it is handed
 			e := secp256k1.Base().Double()
@@ -892,4 +900,39 @@ func Noise(r *gen.Rng) {
 			_, _ = Call(func() { secp256k1.EncodeToGroup(nil, []byte{}) })
 		}
 	}
+}
+
+// ConstantsIntact reads the values the package hands out as constants (the identity, the generator, 0, 1, -1, the order)
+// through fresh objects and compares them with the oracle; it returns "" or what is wrong.
+func ConstantsIntact() string {
+	if e := secp256k1.NewElement(); !e.IsIdentity() || !bytes.Equal(e.Encode(), []byte{0}) {
+		return "NewElement() is no longer the identity"
+	}
+
+	if e := secp256k1.Base().Identity(); !e.IsIdentity() || !bytes.Equal(e.Encode(), []byte{0}) {
+		return "Identity() is no longer the identity"
+	}
+
+	if e := secp256k1.Base(); !bytes.Equal(e.Encode(), oracle.EncC(oracle.G())) {
+		return "Base() is no longer the generator"
+	}
+
+	if e := secp256k1.Base().Double(); !bytes.Equal(e.Encode(), oracle.EncC(oracle.Dbl(oracle.G()))) {
+		return "Base().Double() is no longer 2G"
+	}
+
+	if e := secp256k1.Base().Subtract(secp256k1.Base()); !e.IsIdentity() {
+		return "G - G is no longer the identity"
+	}
+
+	n1 := new(big.Int).Sub(oracle.N, big.NewInt(1))
+	if s := secp256k1.NewScalar(); !s.IsZero() || ScalVal(s.One()).Cmp(big.NewInt(1)) != 0 || ScalVal(s.MinusOne()).Cmp(n1) != 0 {
+		return "NewScalar() / One() / MinusOne() are no longer 0 / 1 / n-1"
+	}
+
+	if !bytes.Equal(secp256k1.Order(), oracle.Bytes32(oracle.N)) {
+		return "Order() is no longer n"
+	}
+
+	return ""
 }
